@@ -39,6 +39,40 @@ fn install_observer(tid: usize) {
     })));
 }
 
+/// Installs the trace observer on the CALLING thread (a sequential section outside `run_scheduled*`: a warm-up, a probe,
+/// the tear-down after a round); its atomic operations are reported as those of thread `tid`. `unobserve_here` removes it.
+pub fn observe_here(tid: usize) {
+    install_observer(tid);
+}
+pub fn unobserve_here() {
+    tower_resilience_core::verif::set_observer(None);
+}
+/// Finds out which cell an accessor reads: runs `f` (one call of `limit()`, `in_flight()`, …) on the calling thread,
+/// observed as thread `tid`, between the markers `b<tid>:<code>` / `e<tid>:<code>:<value>`, and returns the name of the
+/// cell it loaded — `None` unless it performed atomic operations on exactly one cell.
+pub fn probe_cell(tid: usize, code: &str, f: impl FnOnce() -> u64) -> Option<String> {
+    let from = ATRACE.lock().unwrap_or_else(|e| e.into_inner()).len();
+    atrace_push(format!("b{}:{}", tid, code));
+    observe_here(tid);
+    let v = f();
+    unobserve_here();
+    atrace_push(format!("e{}:{}:{}", tid, code, v));
+    let t = ATRACE.lock().unwrap_or_else(|e| e.into_inner());
+    let mut cells: Vec<String> = Vec::new();
+    for e in t[from..].iter().filter(|e| e.starts_with('a')) {
+        if let Some(c) = e.split(',').nth(2) {
+            if !cells.iter().any(|x| x == c) {
+                cells.push(c.to_string());
+            }
+        }
+    }
+    if cells.len() == 1 {
+        cells.pop()
+    } else {
+        None
+    }
+}
+
 struct St {
     turn: Option<usize>,
     at_yield: Vec<bool>,
